@@ -276,10 +276,20 @@ func (r *Runner) runOne(idx int, cs CaseSpec, fn func(c *Case)) {
 					c.Violate("panic:"+panicSite(st), "panic in case goroutine: %v\n%s", p, st)
 				}
 				for i := len(c.cleanups) - 1; i >= 0; i-- {
-					func() {
+					// a cleanup (typically Socket.Close) on a wedged object must not hang the child:
+					// run it under the stuck detector and abandon it if it never returns.
+					f := c.cleanups[i]
+					k := Go("cleanup", func() (interface{}, error) {
 						defer func() { recover() }()
-						c.cleanups[i]()
-					}()
+						f()
+						return nil, nil
+					})
+					if r := Await(k.Done, AwaitOpts{Watchdog: 30 * time.Second}); r.V != Done {
+						c.Logf("cleanup %d abandoned (%v)", i, r.V)
+						if !c.Failed() {
+							c.Inconclusive("a cleanup (Close) did not return: %v\n%s", r.V, r.Dump)
+						}
+					}
 				}
 			}()
 			fn(c)
